@@ -104,7 +104,17 @@ impl Default for Case {
     }
 }
 
-pub const WAIT: Duration = Duration::from_secs(40);
+/// scales a watchdog for the Miri interpreter (~10^3 times slower); watchdogs return as soon as their condition holds
+pub fn wd(d: Duration) -> Duration {
+    if cfg!(miri) {
+        d * 40
+    } else {
+        d
+    }
+}
+
+/// generous watchdog (its firing is inconclusive, never a verdict); the Miri interpreter is ~10^3 times slower
+pub const WAIT: Duration = Duration::from_secs(if cfg!(miri) { 900 } else { 40 });
 
 impl Running {
     /// waits until everything sent so far (`sent` harness events + announced self-sends) is consumed
